@@ -414,14 +414,14 @@ class PySrv(object):
         pend = set((k, low(c)) for k, c in self.pending)
         for k, c in self.chans.items():
             if self.bot not in c.members: continue
-            if k not in self.modes_synced and ('m', k) not in pend: out.append('modes of %s never sent' % k)
-            if k not in self.bans_synced and ('b', k) not in pend: out.append('bans of %s never sent' % k)
+            if k not in self.modes_synced and ('m', k) not in pend: out.append('modes of %s were never sent and no MODE query of the bot is pending' % k)
+            if k not in self.bans_synced and ('b', k) not in pend: out.append('bans of %s were never sent and no MODE +b query of the bot is pending' % k)
         if self.cfg['chghost']:
             for i, u in self.users.items():
                 if i in self.told or not self.visible(i): continue
                 shared = [k for k, c in self.chans.items() if self.bot in c.members and i in c.members]
                 if not all(('w', k) in pend for k in shared):
-                    out.append('hostmask of visible %s never shown' % u.nick)
+                    out.append('hostmask of visible %s was never shown to the bot and no WHO query of the bot is pending for a shared channel' % u.nick)
         return out
 
 def enc_set(xs):
@@ -824,7 +824,7 @@ def run_history(real, cfg, script, check=True):
                 d, modes_only = oracle(v, real.state(), cfg['multiPrefix'])
                 gaps = S.spec_gaps()
                 if gaps:
-                    d = d + ['reference server incomplete: ' + g for g in gaps]; modes_only = False
+                    d = d + ['quiescence: ' + g for g in gaps]; modes_only = False
                 if d:
                     fails.append((idx, d, modes_only))
         else:
